@@ -43,7 +43,16 @@ where
             let sym = symtab.get(*strref).unwrap();
             let value = match sym.inner() {
                 Symbol::Value(value) => *value,
-                Symbol::Expr(expr) => expr.evaluate(symtab, str_interner).unwrap(),
+                Symbol::Expr(expr) => match expr.evaluate(symtab, str_interner) {
+                    Some(value) => value,
+                    None => {
+                        let interner = str_interner.as_ref().borrow();
+                        return Err(DebugExporterError::new(format!(
+                            "The symbol \"{}\" could not be solved",
+                            interner.get(*strref).unwrap()
+                        )));
+                    }
+                },
             };
             let meta = symtab.meta_interner().get(sym.meta()).unwrap();
 
